@@ -41,7 +41,7 @@ theorem sortVals_pairwise (l : List α) : (sortVals l).Pairwise (· ≤ ·) := b
 omit [LinearOrder α] [LawfulVal α] in
 theorem sortVals_perm (l : List α) : (sortVals l).Perm l := List.mergeSort_perm _ _
 
-omit [Val α] [LawfulVal α] in
+omit [LinearOrder α] [Val α] [LawfulVal α] in
 theorem getLastD_mem (rest : List α) (v0 : α) : rest.getLastD v0 ∈ v0 :: rest := by
   induction rest generalizing v0 with
   | nil => simp
